@@ -87,6 +87,7 @@ partial def expr : P Expr := do
   | "perm" => do let p ← many int; let d ← ty; pure (.perm p d)
   | "cups" => do let l ← ty; let r ← ty; pure (.cups l r)
   | "caps" => do let l ← ty; let r ← ty; pure (.caps l r)
+  | "transpose" => do let a ← expr; let l ← bool; pure (.transpose a l)
   | _ => throw s!"bad expr head {t}"
 
 /-! printing -/
